@@ -201,6 +201,9 @@ class MonitoredList(MonitoredContainer, list):
         super().append(item)
 
     def __setitem__(self, idx, value):
+        if isinstance(idx, slice):
+            # the assigned iterable may be a one-shot one: it is recorded and stored from the same materialised values
+            value = list(value)
         value = self._on_add(value)
         super().__setitem__(idx, value)
 
